@@ -6,6 +6,9 @@
 //!    `may::sync::Mutex` guard and / or an `RwLock` write guard (its own locks: no contention);
 //!  * `holder`   – takes a guard, sleeps, and is *cancelled* by `main` meanwhile (or finishes first);
 //!  * `worker`   – unrelated: yields / sleeps, takes and releases its own lock, returns a value;
+//!  * `detached` – a panicker whose `JoinHandle` is dropped before it can run / as soon as it runs (nobody will ever ask
+//!    for its payload); `main` learns of its end from a drop flag in its closure and then inspects its locks;
+//!  * `victim`   – runs (yield / sleep) until `main` cancels it: its `join()` must yield exactly `Error::Cancel`;
 //!  * `scoped`   – (some scenarios) owner of a scope with two children, one of which panics while the other still
 //!    runs: the owner re-raises the payload after the scope has waited for both (same events as family `scope`).
 //! After each round `main` inspects every lock that was used.
@@ -13,6 +16,10 @@
 //! Oracles (independent of the model)
 //!  * the `JoinHandle` of a panicker yields `Err` with exactly its payload; a worker yields its value; a cancelled
 //!    holder yields `Err` without payload (or its value when it was faster than the cancel);
+//!  * `foreign-payload:` pool history (stack pool capacity 6, so the stacks of finished coroutines are reused within the
+//!    scenario): an `Err` handed out by a `JoinHandle` is the coroutine's OWN payload, or exactly
+//!    `generator::Error::Cancel` for a cancelled one - never the payload of a coroutine that used the stack before
+//!    (e.g. of a detached panicker whose payload nobody took), never an unknown type;
 //!  * a lock whose guard was dropped by a panic `is_poisoned()`, and `lock()/write()` return `Err(PoisonError)`
 //!    whose `into_inner()` is a usable guard (the lock was released: a lock that was not would hang -> watchdog);
 //!    a lock whose guard was dropped normally or by a cancellation unwind is not poisoned and can be taken;
@@ -28,6 +35,16 @@
 //! Family `panicrw` (`build_rw`, oracles only, NOT part of `./check C13`): what F10.patch does not repair - a destructor
 //! that blocks while it unwinds (`RwLockReadGuard::drop` -> `read_unlock` -> `rlock.lock()` under reader contention).
 //! Its failures carry the prefix `F10rw:`.
+//!
+//! Family `panichand` (`build_hand`, replayed by `PanicR.handMachine`, part of `./check C13`): contended locks. One
+//! coroutine takes a `Mutex` / an `RwLock` write guard, half-updates the data and panics inside the guard (1 in 4: ends
+//! normally, control) while 1-3 waiters - coroutines and threads calling `lock()` / `write()` / `read()`, threads polling
+//! `try_lock()` / `try_write()` / `try_read()` - are queued or arrive. The hooked operations of sync/poison.rs,
+//! sync/mutex.rs and sync/rwlock.rs are perturbation points, so the dropper can be stalled between the two halves of the
+//! guard's drop. Oracles: `handover:` every acquisition granted after the panicking holder's release reports `Poisoned`
+//! (and the data it finds is the half-updated one); `poison:` nobody sees `Poisoned` in the control runs;
+//! `is_poisoned()` is true as soon as the holder's `join()` has returned; the lock can still be taken at the end; a lost
+//! wake-up is a hang (watchdog). The replay ties the order `poison.done` -> release of the lock word to the model.
 //!
 //! Family `paniccq` (`build_cq`, oracles only): the same probe around `cqueue::scope` - the owner panics in `f`, or an
 //! arm panics and `poll` re-throws it, while another arm still runs, so `Cqueue::drop` has to wait.
@@ -53,6 +70,11 @@ enum Role {
     Worker(Vec<Step>, bool),
     /// owner of a scope with two children; child `b` panics at once, child `a` is slow
     Scoped,
+    /// fire-and-forget: (payload, locks held when it panics as for `Panicker`, yields before the panic, the handle is dropped
+    /// before the coroutine can run / only once it runs)
+    Detached(u64, u8, u32, bool),
+    /// no locks: runs (yield / sleep) until `main` cancels it; its join must report exactly `Error::Cancel`
+    Victim(u64),
 }
 
 struct Co {
@@ -141,9 +163,12 @@ pub fn build(rng: &mut Rng, tier: u32, with_scope: bool) -> LiveBuilt {
                 scoped_nodes.push((id, Arc::new(node)));
                 Role::Scoped
             } else {
-                match rng.below(10) {
+                match rng.below(14) {
                     0..=3 => Role::Panicker(5000 + id as u64, rng.below(4) as u8, rng.below(3) as u32),
                     4 => Role::Holder(1 + rng.below(2) as u8, 300 + rng.below(900), rng.below(400)),
+                    // pool history: detached panickers leave their stacks to the coroutines of the next rounds
+                    10 | 11 => Role::Detached(6000 + id as u64, rng.below(4) as u8, rng.below(3) as u32, rng.below(2) == 0),
+                    12 | 13 => Role::Victim(rng.below(300)),
                     _ => Role::Worker(
                         (0..1 + rng.below(4))
                             .map(|_| match rng.below(3) {
@@ -177,6 +202,9 @@ pub fn build(rng: &mut Rng, tier: u32, with_scope: bool) -> LiveBuilt {
                 }
             }));
             may::config().set_stack_size(0x8000);
+            // a small FIFO stack pool (set before the first spawn of the process creates it; `put` reads the capacity
+            // every time): the stack of a finished coroutine is handed to one of the next few spawns
+            may::config().set_pool_capacity(6);
             let fails: Arc<StdMutex<Vec<String>>> = Arc::new(StdMutex::new(vec![]));
             let locks = Arc::new(Locks {
                 m: (0..nact).map(|_| Mutex::new(0)).collect(),
@@ -193,12 +221,16 @@ pub fn build(rng: &mut Rng, tier: u32, with_scope: bool) -> LiveBuilt {
             };
             for round in &plan {
                 let mut hs = vec![];
+                let mut detached = vec![];
                 for co in round {
                     let id = co.id;
                     let role = co.role.clone();
                     let (locks, fails2, ps, reused2) = (locks.clone(), fails.clone(), panicked_stacks.clone(), reused.clone());
                     let holding = Arc::new(AtomicBool::new(false));
                     let holding2 = holding.clone();
+                    // `gone`: the closure is over (set by a guard that is declared first, i.e. dropped last, also by an unwind)
+                    let gone = Arc::new(AtomicBool::new(false));
+                    let gone2 = gone.clone();
                     let node = scoped_nodes.iter().find(|(i, _)| *i == id).map(|(_, n)| n.clone());
                     let sctx2 = sctx.clone();
                     call("spawn", id as u64, 0);
@@ -209,6 +241,7 @@ pub fn build(rng: &mut Rng, tier: u32, with_scope: bool) -> LiveBuilt {
                         coroutine::Builder::new()
                             .name(format!("c{id}"))
                             .spawn(move || -> usize {
+                                let _gone = SetOnDrop(gone2);
                                 let marker = 0u8;
                                 let stack = (&marker as *const u8 as usize) >> 12;
                                 if ps.lock().unwrap_or_else(|e| e.into_inner()).contains(&stack) {
@@ -260,8 +293,18 @@ pub fn build(rng: &mut Rng, tier: u32, with_scope: bool) -> LiveBuilt {
                                         call("child.end", id as u64, (id * 100 + 7) as u64);
                                         id * 100 + 7
                                     }
-                                    Role::Panicker(p, lk, yields) => {
+                                    Role::Victim(_) => {
                                         call("child.begin", id as u64, 0);
+                                        holding2.store(true, Ordering::SeqCst);
+                                        // until the cancel arrives (a hang if it never does: watchdog)
+                                        loop {
+                                            coroutine::yield_now();
+                                            coroutine::sleep(Duration::from_micros(150));
+                                        }
+                                    }
+                                    Role::Panicker(p, lk, yields) | Role::Detached(p, lk, yields, _) => {
+                                        call("child.begin", id as u64, 0);
+                                        holding2.store(true, Ordering::SeqCst);
                                         ps.lock().unwrap_or_else(|e| e.into_inner()).push(stack);
                                         for _ in 0..yields {
                                             coroutine::yield_now();
@@ -290,14 +333,25 @@ pub fn build(rng: &mut Rng, tier: u32, with_scope: bool) -> LiveBuilt {
                             })
                             .unwrap()
                     };
-                    hs.push((co, h, holding));
+                    if let Role::Detached(_, _, _, early) = co.role {
+                        // fire-and-forget: the JoinHandle goes away before the coroutine ran, or while it runs
+                        if !early {
+                            while !holding.load(Ordering::SeqCst) && !gone.load(Ordering::SeqCst) {
+                                std::thread::sleep(Duration::from_micros(20));
+                            }
+                        }
+                        drop(h);
+                        detached.push((co, gone));
+                    } else {
+                        hs.push((co, h, holding));
+                    }
                 }
                 // cancel the holders once they hold their guard
                 for (co, h, holding) in &hs {
                     // (no `is_done()` polling here: it is a hooked load without an API event of its own)
-                    if let Role::Holder(_, _, delay) = co.role {
-                        let t0 = std::time::Instant::now();
-                        while !holding.load(Ordering::SeqCst) && t0.elapsed().as_millis() < 200 {
+                    if let Role::Holder(_, _, delay) | Role::Victim(delay) = co.role {
+                        // (no real-time bound: a coroutine that never gets there is the watchdog's business)
+                        while !holding.load(Ordering::SeqCst) {
                             std::thread::sleep(Duration::from_micros(20));
                         }
                         std::thread::sleep(Duration::from_micros(delay));
@@ -310,9 +364,25 @@ pub fn build(rng: &mut Rng, tier: u32, with_scope: bool) -> LiveBuilt {
                 for (co, h, _) in hs {
                     call("join", co.id as u64, 0);
                     let r = h.join();
-                    let r: Result<usize, Option<u64>> = r.map_err(|e| e.downcast_ref::<Payload>().map(|p| p.0));
+                    // Err(Some(p)) = a payload of this scenario, Err(None) = exactly `Error::Cancel`
+                    let r: Result<usize, Option<u64>> = r.map_err(|e| match e.downcast_ref::<Payload>() {
+                        Some(p) => Some(p.0),
+                        None => {
+                            if e.downcast_ref::<generator::Error>() != Some(&generator::Error::Cancel) {
+                                fail(format!("foreign-payload: join of c{} gave a payload that is neither of this scenario nor Error::Cancel", co.id));
+                            }
+                            None
+                        }
+                    });
                     ret("join", match &r { Ok(_) => 0, Err(Some(_)) => 1, Err(None) => 2 });
-                    outcomes.push((co, r));
+                    outcomes.push((co, Some(r)));
+                }
+                // the detached ones: wait until their closures are over (no handle to join)
+                for (co, gone) in detached {
+                    while !gone.load(Ordering::SeqCst) {
+                        std::thread::sleep(Duration::from_micros(50));
+                    }
+                    outcomes.push((co, None));
                 }
                 // wait for the kernel tails of this round before looking at the locks
                 super::quiesce(4);
@@ -320,7 +390,18 @@ pub fn build(rng: &mut Rng, tier: u32, with_scope: bool) -> LiveBuilt {
                     let id = co.id;
                     let mut expect_poison = [false, false]; // mutex, rwlock of this coroutine
                     let mut used = [false, false];
+                    if let (Role::Detached(_, lk, _, _), None) = (&co.role, &r) {
+                        expect_poison = [lk & 1 != 0, lk & 2 != 0];
+                        used = expect_poison;
+                    }
+                    let r = r.unwrap_or(Ok(0));
                     match &co.role {
+                        Role::Detached(..) => {}
+                        Role::Victim(_) => match r {
+                            Err(None) => {}
+                            Err(Some(p)) => fail(format!("foreign-payload: c{id} was cancelled and never panicked, but its JoinHandle delivered the panic payload {p} of another coroutine")),
+                            Ok(v) => fail(format!("cancel: victim c{id} returned {v}")),
+                        },
                         Role::Panicker(p, lk, _) => {
                             if r != Err(Some(*p)) {
                                 fail(format!("payload: join of panicker c{id} gave {r:?}, expected Err(Some({p}))"));
@@ -338,6 +419,7 @@ pub fn build(rng: &mut Rng, tier: u32, with_scope: bool) -> LiveBuilt {
                             match r {
                                 Ok(v) if v == id * 100 + 7 => {}
                                 Err(None) => {}
+                                Err(Some(p)) => fail(format!("foreign-payload: c{id} was cancelled and never panicked, but its JoinHandle delivered the panic payload {p} of another coroutine")),
                                 other => fail(format!("cancel: holder c{id} gave {other:?}")),
                             }
                             used = [*kind == 1, *kind == 2];
@@ -610,6 +692,302 @@ pub fn build_rw(rng: &mut Rng, tier: u32) -> LiveBuilt {
             if n > 0 {
                 out.push(format!("F10rw: readers that were not unwinding observed thread::panicking() == true {n} times (a read guard dropped by an unwind blocked in read_unlock)"));
             }
+            out
+        }),
+    }
+}
+
+// ------------------------------------------------------------------------------------------------ family `panichand`
+
+#[derive(Clone, Copy, Debug, PartialEq)]
+enum Acq {
+    /// `Mutex::lock` / `RwLock::write`
+    Excl,
+    /// `RwLock::read`
+    Read,
+    /// busy-polling `try_lock` / `try_write`
+    TryExcl,
+    /// busy-polling `try_read`
+    TryRead,
+}
+
+/// outcome of one acquisition of a waiter: (was it reported Poisoned, the protected value it saw)
+fn acquire(m: &Mutex<u64>, rw: &RwLock<u64>, is_rw: bool, how: Acq, lid: u64, fails: &StdMutex<Vec<String>>, who: &str, expect_poison: bool) {
+    use std::sync::TryLockError;
+    let kind = match how {
+        Acq::Excl => 1,
+        Acq::Read => 3,
+        Acq::TryExcl => 4,
+        Acq::TryRead => 5,
+    };
+    call("lock", lid, kind);
+    // the value is odd while the holder is "in the middle of an update" - which it never finishes
+    let (poisoned, seen) = if !is_rw {
+        let r = match how {
+            Acq::Excl | Acq::Read => m.lock(),
+            _ => loop {
+                match m.try_lock() {
+                    Ok(g) => break Ok(g),
+                    Err(TryLockError::Poisoned(e)) => break Err(e),
+                    Err(TryLockError::WouldBlock) => std::thread::sleep(Duration::from_micros(5)),
+                }
+            },
+        };
+        let p = r.is_err();
+        ret("lock", p as u64);
+        let g = r.unwrap_or_else(|e| e.into_inner());
+        let v = *g;
+        if coroutine::is_coroutine() {
+            coroutine::yield_now();
+        }
+        call("unlock", lid, 0);
+        drop(g);
+        (p, v)
+    } else {
+        match how {
+            Acq::Excl | Acq::TryExcl => {
+                let r = if how == Acq::Excl {
+                    rw.write()
+                } else {
+                    loop {
+                        match rw.try_write() {
+                            Ok(g) => break Ok(g),
+                            Err(TryLockError::Poisoned(e)) => break Err(e),
+                            Err(TryLockError::WouldBlock) => std::thread::sleep(Duration::from_micros(5)),
+                        }
+                    }
+                };
+                let p = r.is_err();
+                ret("lock", p as u64);
+                let g = r.unwrap_or_else(|e| e.into_inner());
+                let v = *g;
+                if coroutine::is_coroutine() {
+                    coroutine::yield_now();
+                }
+                call("unlock", lid, 0);
+                drop(g);
+                (p, v)
+            }
+            _ => {
+                let r = if how == Acq::Read {
+                    rw.read()
+                } else {
+                    loop {
+                        match rw.try_read() {
+                            Ok(g) => break Ok(g),
+                            Err(TryLockError::Poisoned(e)) => break Err(e),
+                            Err(TryLockError::WouldBlock) => std::thread::sleep(Duration::from_micros(5)),
+                        }
+                    }
+                };
+                let p = r.is_err();
+                ret("lock", p as u64);
+                let g = r.unwrap_or_else(|e| e.into_inner());
+                let v = *g;
+                if coroutine::is_coroutine() {
+                    coroutine::yield_now();
+                }
+                call("unlock", lid, 0);
+                drop(g);
+                (p, v)
+            }
+        }
+    };
+    if poisoned != expect_poison {
+        let mut f = fails.lock().unwrap_or_else(|e| e.into_inner());
+        if f.len() < 12 {
+            if expect_poison {
+                f.push(format!(
+                    "handover: {who} ({how:?}) was granted lock {lid} after the holder that panicked inside its guard had released it, but got Ok(guard) instead of Err(Poisoned) (protected value seen: {seen}, odd = half-updated)"
+                ));
+            } else {
+                f.push(format!("poison: {who} ({how:?}) got Err(Poisoned) on lock {lid} although no holder panicked"));
+            }
+        }
+    }
+}
+
+/// family `panichand` (C13, strict): **a lock released by a panic is handed over poisoned**. The first holder of a
+/// `Mutex` / an `RwLock` (write guard) - a coroutine - takes the lock before anybody else exists, marks the protected
+/// value "half-updated", waits until 1-3 waiters (coroutines and threads; `lock()`/`write()`, `read()`, busy-polling
+/// `try_*`) have arrived (some are queued in the lock by then, some arrive later, pollers hit the release directly)
+/// and panics. Every acquisition of every waiter is granted after the holder's release (the holder was first), so
+/// **every one must report `Poisoned`**, for all schedules - no timing assumption; afterwards `is_poisoned()` and the
+/// lock can still be taken. A quarter of the scenarios are controls: the holder releases normally, nobody may see
+/// `Poisoned`. The hooked operations of sync/poison.rs, sync/mutex.rs, sync/rwlock.rs are in the filter, so the live
+/// perturbation stalls the dropper at every step of its guard drop, also between its unlock and its poison store if
+/// the code has them in that order.
+pub fn build_hand(rng: &mut Rng, _tier: u32) -> LiveBuilt {
+    let is_rw = rng.below(3) != 0;
+    let panics = rng.below(4) != 0;
+    let nw = 1 + rng.below(3) as usize;
+    let waiters: Vec<(bool, Acq, u64)> = (0..nw)
+        .map(|_| {
+            let coro = rng.below(2) == 0;
+            let how = match (is_rw, rng.below(4)) {
+                (true, 0) => Acq::Excl,
+                (true, 1) => Acq::Read,
+                (true, 2) => Acq::TryExcl,
+                (true, _) => Acq::TryRead,
+                (false, 0) | (false, 1) => Acq::Excl,
+                (false, _) => Acq::TryExcl,
+            };
+            // a poller in coroutine context would spin on its worker: pollers are threads
+            let coro = coro && matches!(how, Acq::Excl | Acq::Read);
+            (coro, how, rng.below(3) * rng.below(200))
+        })
+        .collect();
+    let hold_yields = rng.below(4);
+    let extra_delay = rng.below(4) * rng.below(150);
+    // actors: 0 main, 1 unused, 2 the holder, 3.. the waiters (coroutines `c<i>`, threads `t<i>`)
+    let header = format!(
+        "family=panichand actors={} rw={} panics={} waiters={}",
+        3 + nw,
+        is_rw as u8,
+        panics as u8,
+        waiters.iter().map(|w| format!("{}{:?}", if w.0 { "c" } else { "t" }, w.1)).collect::<Vec<_>>().join(",")
+    );
+    LiveBuilt {
+        header,
+        filter: vec!["src/sync/poison.rs", "src/sync/mutex.rs", "src/sync/rwlock.rs"],
+        hang_ms: 6000,
+        run: Box::new(move || {
+            std::panic::set_hook(Box::new(|info| {
+                if info.payload().downcast_ref::<Payload>().is_none() {
+                    eprintln!("unexpected panic: {info}");
+                }
+            }));
+            may::config().set_stack_size(0x8000);
+            let fails: Arc<StdMutex<Vec<String>>> = Arc::new(StdMutex::new(vec![]));
+            let m = Arc::new(Mutex::new(0u64));
+            let rw = Arc::new(RwLock::new(0u64));
+            let lid = 7u64;
+            let holding = Arc::new(AtomicBool::new(false));
+            let go = Arc::new(AtomicBool::new(false));
+            let arrived = Arc::new(AtomicUsize::new(0));
+            let p = 4242u64;
+            call("spawn", 2, 0);
+            let (m2, rw2, holding2, go2) = (m.clone(), rw.clone(), holding.clone(), go.clone());
+            let holder = unsafe {
+                coroutine::Builder::new().name("c2".into()).spawn(move || {
+                    call("child.begin", 2, 0);
+                    call("lock", lid, if is_rw { 2 } else { 1 });
+                    // declared so that the guard is dropped by whatever ends the closure
+                    let mut gm = None;
+                    let mut gw = None;
+                    if is_rw {
+                        let g = rw2.write();
+                        ret("lock", g.is_err() as u64);
+                        let mut g = g.unwrap_or_else(|e| e.into_inner());
+                        *g += 1; // half-updated
+                        gw = Some(g);
+                    } else {
+                        let g = m2.lock();
+                        ret("lock", g.is_err() as u64);
+                        let mut g = g.unwrap_or_else(|e| e.into_inner());
+                        *g += 1;
+                        gm = Some(g);
+                    }
+                    holding2.store(true, Ordering::SeqCst);
+                    // (sleep, not yield_now: a coroutine that only yields goes back to its worker's local queue and is
+                    //  taken again before the worker looks at the global queue - with one worker the waiters would never start)
+                    while !go2.load(Ordering::SeqCst) {
+                        coroutine::sleep(Duration::from_micros(100));
+                    }
+                    for _ in 0..hold_yields {
+                        coroutine::yield_now();
+                    }
+                    if panics {
+                        call("child.panic", 2, p);
+                        std::panic::panic_any(Payload(p));
+                    }
+                    // control: the update is completed and the guard released normally
+                    if let Some(g) = gw.as_mut() {
+                        **g += 1;
+                    }
+                    if let Some(g) = gm.as_mut() {
+                        **g += 1;
+                    }
+                    call("unlock", lid, 0);
+                    drop(gw);
+                    drop(gm);
+                    call("child.end", 2, 0);
+                })
+                .unwrap()
+            };
+            // nobody else exists before the holder has the lock: every later grant follows its release
+            while !holding.load(Ordering::SeqCst) {
+                std::thread::sleep(Duration::from_micros(20));
+            }
+            let mut cs = vec![];
+            let mut ts = vec![];
+            for (i, (coro, how, delay)) in waiters.iter().cloned().enumerate() {
+                let id = 3 + i;
+                let (m3, rw3, fails3, arrived3) = (m.clone(), rw.clone(), fails.clone(), arrived.clone());
+                let body = move |who: String| {
+                    arrived3.fetch_add(1, Ordering::SeqCst);
+                    if delay > 0 {
+                        if coroutine::is_coroutine() {
+                            coroutine::sleep(Duration::from_micros(delay));
+                        } else {
+                            std::thread::sleep(Duration::from_micros(delay));
+                        }
+                    }
+                    acquire(&m3, &rw3, is_rw, how, lid, &fails3, &who, panics);
+                };
+                if coro {
+                    call("spawn", id as u64, 0);
+                    cs.push(unsafe {
+                        coroutine::Builder::new().name(format!("c{id}")).spawn(move || {
+                            call("child.begin", id as u64, 0);
+                            body(format!("coroutine c{id}"));
+                            call("child.end", id as u64, 0);
+                        })
+                        .unwrap()
+                    });
+                } else {
+                    ts.push(super::spawn_actor_thread(&format!("t{id}"), move || body(format!("thread t{id}"))));
+                }
+            }
+            while arrived.load(Ordering::SeqCst) < nw {
+                std::thread::sleep(Duration::from_micros(20));
+            }
+            if extra_delay > 0 {
+                std::thread::sleep(Duration::from_micros(extra_delay));
+            }
+            go.store(true, Ordering::SeqCst);
+            let fail = |s: String| {
+                let mut f = fails.lock().unwrap_or_else(|e| e.into_inner());
+                if f.len() < 12 {
+                    f.push(s);
+                }
+            };
+            let r = holder.join().map_err(|e| e.downcast_ref::<Payload>().map(|p| p.0));
+            match (panics, &r) {
+                (true, Err(Some(q))) if *q == p => {}
+                (false, Ok(())) => {}
+                _ => fail(format!("payload: join of the holder gave {r:?} (panics={panics})")),
+            }
+            // `is_poisoned()` once the panicking holder's join has returned
+            call("chk", lid, 0);
+            let ip = if is_rw { rw.is_poisoned() } else { m.is_poisoned() };
+            ret("chk", ip as u64);
+            if ip != panics {
+                fail(format!("poison: is_poisoned() = {ip} after the join of the holder (panics={panics})"));
+            }
+            for c in cs {
+                if c.join().is_err() {
+                    fail("isolation: a waiter coroutine ended with a panic".to_string());
+                }
+            }
+            for t in ts {
+                let _ = t.join();
+            }
+            // released: still acquirable (a lock that was not would hang: watchdog), and still reported poisoned
+            acquire(&m, &rw, is_rw, Acq::Excl, lid, &fails, "main (final)", panics);
+            super::quiesce(3);
+            let mut out = std::mem::take(&mut *fails.lock().unwrap_or_else(|e| e.into_inner()));
+            super::classify_f10(&mut out);
             out
         }),
     }
